@@ -64,7 +64,7 @@ contract(A + "Action._start", props=["C02", "C03", "C13", "C01", "C07"],
          types={"fields": "dict"},
          requires=[("rep-ok", "rep_ok(self)"), ("unstarted", "self._last_child is None"),
                    ("not-current", "curact() is not self"), ("current-ok", "cur_ok()"),
-                   ("fields-private", "forall(lambda a: box(fields) != a._identification and box(fields) != a._successFields, 'ref:obj')")],
+                   ("fields-private", "private_dict(fields) and private_to(fields, self)")],
          modifies=["dict(fields)", "#LOG", "#OFFERS", "#CALLS", "#IO", "field:_last_child"],
          returns="none",
          ghosts={"R": "seqe"}, after={"ILogger.write#0": [("R", "R")]},
@@ -79,6 +79,7 @@ contract(A + "Action._start", props=["C02", "C03", "C13", "C01", "C07"],
                   ("position-consumed", "pos(self) == 1 and rep_ok(self)", ["C02"]),
                   ("positions-elsewhere", "only_changed('_last_child', self, curact())", ["C02"]),
                   ("success-fields-untouched", "dict_of(self._successFields) == old(dict_of(self._successFields))", ["C03"]),
+                  ("current-action-advances", "implies(curact() is not None, pos(typed(curact(), 'Action')) >= old(pos(typed(curact(), 'Action'))))"),
                   ("current-ok", "cur_ok()")])
 
 contract(A + "current_action", props=["C04", "C05"], returns="Opt[Action]",
@@ -133,7 +134,7 @@ contract(A + "Action.finish", props=["C03", "C02", "C13", "C07"], shards=4,
          ghosts={"R1": "seqe", "R2": "seqe", "E": "ev"}, ghost_defaults={"R1": "empty_log()"},
          after={"ILogger.write#0": [("R2", "R"), ("E", "write_ev(self, dictionary, serializer)")],
                 "ErrorExtraction.get_fields_for_exception#0": [("R1", "R")]},
-         requires=[("rep-ok", "rep_ok(self)"), ("current-ok", "cur_ok()"),
+         requires=[("rep-ok", "rep_ok(self)"), ("current-ok", "cur_ok()"), ("E12-dicts-owned", "owns_success_fields(self)"),
                    ("finished-implies-started", "implies(self._finished, self._last_child is not None)")],
          modifies=LOGGING_FRAME + ["self._finished", "dict(self._successFields)"],
          ensures=[("finishing-again-emits-nothing", "implies(old(self._finished), LOG == old(LOG) and pos(self) == old(pos(self)) and self._finished)", ["C03"]),
@@ -149,6 +150,8 @@ contract(A + "Action.finish", props=["C03", "C02", "C13", "C07"], shards=4,
                    "and dget(E.b, 'action_type') == atype(self) and is_float(dget(E.b, 'timestamp')) "
                    "and implies(exception is not None, dget(E.b, 'exception') == cls_module_name(exception) and is_str(dget(E.b, 'reason'))))", ["C03", "C02", "C13"]),
                   ("end-is-last", "implies(not old(self._finished) and curact() is not self, pos(self) == old(pos(self)) + 1)", ["C02"]),
+                  # expected to FAIL: known finding C02-F1 (known_findings.json); if it ever proves, the finding is stale
+                  ("end-is-last-even-inside-own-context", "implies(not old(self._finished), pos(self) == old(pos(self)) + 1)", ["C02"]),
                   ("rep-ok", "rep_ok(self) and cur_ok()"),
                   ("positions-elsewhere", "only_changed('_last_child', self, curact())", ["C02"]),
                   ("own-level-unchanged", "lvl(self) == old(lvl(self)) and uu(self) == old(uu(self))")])
@@ -165,6 +168,8 @@ contract(A + "Action.__exit__", props=["C03", "C02", "C04", "C05", "C07"],
                    ("previous-ok", "implies(typed(self._parent_token, 'Token').tok_old != UNSET and typed(self._parent_token, 'Token').tok_old is not None, "
                                    "rep_ok(typed(typed(self._parent_token, 'Token').tok_old, 'Action')))"),
                    ("previous-typed", "typed(self._parent_token, 'Token').tok_old == UNSET or typed(self._parent_token, 'Token').tok_old is None or isinst(typed(self._parent_token, 'Token').tok_old, 'Action', True)"),
+                   ("E12-dicts-owned", "implies(typed(self._parent_token, 'Token').tok_old != UNSET and typed(self._parent_token, 'Token').tok_old is not None, "
+                    "ref(self._successFields) != ref(typed(typed(self._parent_token, 'Token').tok_old, 'Action')._identification))"),
                    ("not-finished", "not self._finished")],
          modifies=LOGGING_FRAME + ["self._finished", "self._parent_token", "#CTX[me]", "field:tok_used", "dict(self._successFields)"],
          ensures=[("context-restored", "CTX[me] == old(typed(self._parent_token, 'Token').tok_old)", ["C04"]),
@@ -202,7 +207,7 @@ contract(A + "Action.log", props=["C02", "C01", "C07", "C13"], shards=3,
          snapshots={"ILogger.write#0": [("L", "box(self)"), ("SER", "box(serializer)")]},
          after={"ILogger.write#0": [("R", "R"), ("DOFF", "DOFF")]},
          requires=[("rep-ok", "rep_ok(self)"), ("current-ok", "cur_ok()"),
-                   ("fields-private", "forall(lambda a: box(fields) != a._identification and box(fields) != a._successFields, 'ref:obj')")],
+                   ("fields-private", "private_dict(fields) and private_to(fields, self)")],
          modifies=LOGGING_FRAME + ["dict(fields)"],
          ensures=[("one-write-then-only-reports", "LOG == old(LOG) + [write_ev(L, fields, SER)] + R and all_reports(R)", ["C01", "C02"]),
                   ("offers-appended", "OFFERS == old(OFFERS) + DOFF"),
